@@ -116,6 +116,16 @@ type Knobs struct {
 	// (for actor 3) although the bank section holds nothing for the escrow account - a document a
 	// node must refuse (or at least import without creating coins)
 	UnbackedLocked string `json:"unbacked_locked,omitempty"`
+	// GenesisOrder: a purchase order already in the genesis document (identifier StartPO; the chain
+	// then starts counting at StartPO+1), e.g. one caught in accepted status by an export, possibly
+	// for a purchaser no transaction could have named
+	GenesisOrder *GenOrder `json:"genesis_order,omitempty"`
+}
+
+type GenOrder struct {
+	Purchaser int    `json:"purchaser"` // address code (actor index or negative module code)
+	Amount    string `json:"amount"`
+	Status    int    `json:"status"` // 1 raised, 2 accepted
 }
 
 type BigReg struct {
@@ -269,6 +279,14 @@ func BuildGenesis(k *Knobs, actors []*Actor) (json.RawMessage, []abci.ValidatorU
 	eg := enttypes.DefaultGenesisState()
 	eg.Params = enttypes.Params{EntSigners: k.signersString(actors), Denom: k.Ent.Denom, MinAccepts: k.Ent.MinAccepts, DecisionTimeLimit: k.Ent.Limit}
 	eg.StartingPurchaseOrderId = k.StartPO
+	if g := k.GenesisOrder; g != nil {
+		eg.StartingPurchaseOrderId = k.StartPO + 1
+		po := enttypes.EnterpriseUndPurchaseOrder{Id: k.StartPO, Purchaser: AddrOf(actors, g.Purchaser).String(), Amount: sdk.NewCoin(k.Ent.Denom, mustInt(g.Amount)), Status: enttypes.PurchaseOrderStatus(g.Status), RaiseTime: uint64(GenesisTS) - 10}
+		if g.Status == 2 {
+			po.Decisions = append(po.Decisions, enttypes.PurchaseOrderDecision{Signer: actors[k.Ent.Signers[0]].Bech(), Decision: enttypes.StatusAccepted, DecisionTime: uint64(GenesisTS) - 5})
+		}
+		eg.PurchaseOrders = append(eg.PurchaseOrders, po)
+	}
 	eg.TotalLocked = sdk.NewInt64Coin(k.Ent.Denom, 0)
 	eg.TotalSpent = sdk.NewInt64Coin(k.Ent.Denom, 0)
 	for _, w := range k.Whitelist {
